@@ -49,6 +49,9 @@ def main():
         if prop == "C10":
             import props_untyped
             return props_untyped.run(prop, tier)
+        if prop == "C07":
+            import props_typed
+            return props_typed.run_c07(prop, tier)
         print("unknown property", prop)
         return 2
     except (common.MachineryError, tlcrun.TLCError) as e:
